@@ -78,6 +78,7 @@ std::string step_str(const Step& s);
 
 // generation
 Plan generate(uint64_t seed, const std::string& focus);
+Plan generate_c11x(uint64_t seed);   // the reconnect machinery on its own (mini client over detail::autoconnect_stream)
 // plan for the C19 chunking differential: one connection, a burst of QoS 0 messages (some mutated) in one segment
 Plan generate_diff(uint64_t seed);
 // identifier exhaustion (65535 + n outstanding QoS 1 publishes) and identifier leak (70000 rejected requests) scenarios (C08, C15)
